@@ -3,7 +3,18 @@ import execprops
 
 def run(chk, tier):
     execprops.run(chk, tier, "C06")
+    # the environment clause where the list reaches the launch through the builder (env_extend / env with duplicates)
+    import c16
+    c16.c06_builder(chk, tier)
 
 
 def replay(chk, path):
+    lines = [l.rstrip("\n") for l in open(path, encoding="utf-8") if l.strip() and not l.startswith("#")]
+    if lines and lines[0].strip() == "builder":
+        import c16
+        import common as C
+        chk.obligations(C.props_check("C06", execprops.DEPS["C06"] if isinstance(getattr(execprops, "DEPS", None), dict) else c16.DEPS))
+        C.build_harness()
+        c16.c06_builder(chk, "quick", explicit=[c16.prog_from_json(lines[1])])
+        return
     execprops.replay(chk, path, "C06")
